@@ -10,9 +10,11 @@
 (* task of the included file.                                              *)
 (* Kinds: "lit" a literal named after the site; "tmpl" a template          *)
 (* '{{.N}}+site' referring to the value of the lower-priority sites;       *)
-(* "sh" a dynamic variable (sh: echo site-sh).                             *)
+(* "sh" a dynamic variable (sh: echo site-sh); "ref" a reference           *)
+(* expression over the value of the lower-priority sites.                  *)
 (* Environment variable E: task env > task dotenv > global env > global    *)
-(* dotenv, the process environment wins over all unless the                *)
+(* dotenv (whatever the kind of the env: entry: literal or sh:), the        *)
+(* process environment wins over all unless the                            *)
 (* env-precedence experiment is on, in which case it loses against all.    *)
 (* Cases specification: one configuration per initial state.               *)
 (***************************************************************************)
@@ -20,20 +22,23 @@ EXTENDS Naturals, Sequences, TLC
 
 VARIABLES cfg, exp
 
+K5 == {"none", "lit", "tmpl", "sh", "ref"}
 K4 == {"none", "lit", "tmpl", "sh"}
+KE == {"none", "lit", "sh"}
 K3 == {"none", "lit", "sh"}
 K2 == {"none", "lit"}
 
-VarCfgs == [k : {"var"}, loc : {"root", "inc"}, task : K4, call : K2, incfile : K3, incstmt : K2, global : K4, cli : K2, os : K2]
+VarCfgs == [k : {"var"}, loc : {"root", "inc"}, task : K5, call : K2, incfile : K3, incstmt : K2, global : K5, cli : K2, os : K2]
 \* dotenv: which of the two listed files define E ("first" file wins)
 D4 == {"none", "first", "second", "both"}
-EnvCfgs == [k : {"env"}, tenv : BOOLEAN, tdot : D4, genv : BOOLEAN, gdot : D4, os : BOOLEAN, experiment : BOOLEAN]
+EnvCfgs == [k : {"env"}, tenv : KE, tdot : D4, genv : KE, gdot : D4, os : BOOLEAN, experiment : BOOLEAN]
 
 Apply(cur, kind, site) ==
   CASE kind = "none" -> cur
     [] kind = "lit"  -> site
     [] kind = "tmpl" -> cur \o "+" \o site
     [] kind = "sh"   -> site \o "-sh"
+    [] kind = "ref"  -> cur \o "+" \o site \o "-ref"
 
 Value(c) ==
   LET v1 == Apply("", c.os, "os")
@@ -45,8 +50,9 @@ Value(c) ==
 
 EnvValue(c) ==
   LET dot(d, n) == IF d \in {"first", "both"} THEN n \o "1" ELSE n \o "2"
-      file == IF c.tenv THEN "tenv" ELSE IF c.tdot # "none" THEN dot(c.tdot, "tdot")
-              ELSE IF c.genv THEN "genv" ELSE IF c.gdot # "none" THEN dot(c.gdot, "gdot") ELSE ""
+      ent(k, n) == IF k = "sh" THEN n \o "-sh" ELSE n
+      file == IF c.tenv # "none" THEN ent(c.tenv, "tenv") ELSE IF c.tdot # "none" THEN dot(c.tdot, "tdot")
+              ELSE IF c.genv # "none" THEN ent(c.genv, "genv") ELSE IF c.gdot # "none" THEN dot(c.gdot, "gdot") ELSE ""
   IN IF c.experiment THEN (IF file # "" THEN file ELSE IF c.os THEN "os" ELSE "")
      ELSE (IF c.os THEN "os" ELSE file)
 
